@@ -3,6 +3,7 @@
   `drivers/C17.lean`, and the request handler both use.  Core Lean only.
 
   Val  : null | true | false | ["i", n] | ["f", h] (the float h/2) | ["s", text] | ["l", [Val…]] | ["d", [[key, Val]…]]
+         key : "text" (a str key) | null | true | false | ["i", n] | ["f", h]
   Expr : [constructor, args…]   e.g. ["all_of", [["is_not_none"], ["greater_than", ["i", 0]]]]
 -/
 import Lean.Data.Json
@@ -14,6 +15,22 @@ open Lean LccModel.Matcher
 def str (s : Str) : Json := Json.str (String.ofList s)
 
 def getInt (j : Json) : Except String Int := j.getInt?
+
+/-- a dict key: a JSON string is a `str` key; the other scalars use the value syntax (`null`, `true`, `["i", 1]`, `["f", 3]`) -/
+def parseDKey (j : Json) : Except String DKey :=
+  match j with
+  | .str s => pure (.str s.toList)
+  | .null => pure .none
+  | .bool b => pure (.bool b)
+  | .arr a => do
+    let tag ← (a[0]?.getD Json.null).getStr?
+    let x := a[1]?.getD Json.null
+    match tag with
+    | "i" => pure (.int (← getInt x))
+    | "f" => pure (.float (← getInt x))
+    | "s" => pure (.str (← x.getStr?).toList)
+    | t => throw s!"unknown key tag {t}"
+  | _ => throw "bad dict key"
 
 partial def parseVal (j : Json) : Except String Val :=
   match j with
@@ -30,11 +47,11 @@ partial def parseVal (j : Json) : Except String Val :=
       let xs ← (← x.getArr?).toList.mapM parseVal
       pure (.list xs)
     | "d" => do
-      let kvs : List (Str × Val) ← (← x.getArr?).toList.mapM fun e => do
+      let kvs : List (DKey × Val) ← (← x.getArr?).toList.mapM fun e => do
         let p ← e.getArr?
-        let k ← (p[0]?.getD Json.null).getStr?
+        let k ← parseDKey (p[0]?.getD Json.null)
         let v ← parseVal (p[1]?.getD Json.null)
-        pure (k.toList, v)
+        pure (k, v)
       pure (.dict (kvs.map Prod.fst) (kvs.map Prod.snd))
     | t => throw s!"unknown value tag {t}"
   | _ => throw "bad value"
